@@ -506,8 +506,9 @@ def c05_compare(verdict, runs, res):
                 verdict.disagree("nondeterministic:success", small, "class %s vs %s (par %s req %s)" % (o["class"], ref["class"], rs[0]["par"], rs[0]["req"]))
             elif o["class"] == "ok" and o["descs"] != ref["descs"]:
                 verdict.disagree("nondeterministic:descriptor-bytes", small, "descriptor hashes %s vs %s" % (o["descs"], ref["descs"]))
-            elif o["class"] != ref["class"]:
-                verdict.disagree("nondeterministic:error-class", small, "class %s vs %s" % (o["class"], ref["class"]))
+            # which of several independent failures is reported first may depend on the schedule: the
+            # statement only fixes success and the produced bytes (an earlier version compared the error
+            # class too and raised a false alarm on "self-import + duplicate symbol" inputs)
 
 
 def c05_fanin_race(wd, name, cases, verdict, st, tier, rng):
@@ -515,14 +516,18 @@ def c05_fanin_race(wd, name, cases, verdict, st, tier, rng):
     type every file uses, so several importers resolve symbols through the same already-linked dependency
     at the same time. Any race report (or a crash such as 'concurrent map writes') is a violation."""
     binary = vf.build_driver("compexec", race=True)
-    pick = [c for c in cases if not c.get("ovr") and not c["hasCycle"] and len(c["req"]) >= 2]
+    pick = [c for c in cases if not c.get("ovr") and not c["hasCycle"] and not c["hasFault"]]
     pick = rng.sample(pick, min(len(pick), 40 if tier == "quick" else 300))
     runs = []
     rid = 1
     for c in pick:
         for par in (2, 4):
             for s in seeds_for(3):
-                runs.append({"id": rid, "case": 0, "imports": c["imports"], "req": c["req"], "plan": c["plan"], "par": par,
+                # two hidden importers of the first requested file: both resolve re-exported symbols through
+                # the same, already linked dependency
+                imps = dict(c["imports"]); x = c["req"][0]
+                imps["ya"] = [x]; imps["yb"] = [x]
+                runs.append({"id": rid, "case": 0, "imports": imps, "req": list(c["req"]) + ["ya", "yb"], "plan": c["plan"], "par": par,
                              "seed": s, "trace": False, "public": True, "fanin": True})
                 rid += 1
     if not runs:
